@@ -2,10 +2,10 @@
    Property theorems only; each is closed by `exact` and followed by Print Assumptions.
    Models: BSpline/Eval.v -- knots_of_option (bspline.__init__), intrv, bsplvn, value (with the sorting
    permutation as argument), point_mask; specification: the textbook recursion B / Bl and spline. *)
-From Coq Require Import QArith List Bool Arith.
+From Coq Require Import QArith ZArith List Bool Arith.
 Import ListNotations.
 From PV Require Import Lib.WLS BSpline.Eval BSpline.EvalProofs BSpline.CoxDeBoor BSpline.BasisProofs
-  BSpline.KnotsProofs BSpline.PermProofs C08.Model C08.Proofs.
+  BSpline.KnotsProofs BSpline.PermProofs BSpline.ActionProofs C08.Model C08.Proofs.
 Open Scope Q_scope.
 
 (* ---- the basis: non-negative, sums to one (every order, every knot vector, loop invariant of BSPLVN) *)
@@ -103,6 +103,17 @@ Theorem C08_value_perm_equivariant : forall bk k coeff xs q p p',
   = (apply_perm 0 q (fst (value bk bm k coeff xs p)), apply_perm true q (snd (value bk bm k coeff xs p))).
 Proof. exact value_perm_equivariant. Qed.
 Print Assumptions C08_value_perm_equivariant.
+
+(* ---- action(): for a non-decreasing interval-index vector the rows lower..upper of segment s are exactly the
+   points whose interval is s + k - 1; the empty default (0, -1) selects nothing *)
+Theorem C08_action_ranges_spec : forall idx k nseg s,
+  nondecr_nat idx -> (s < nseg)%nat ->
+  let v := (s + (k - 1))%nat in
+  let '(lo, hi) := nth s (action_ranges idx k nseg) (0%Z, (-1)%Z) in
+  forall p, (p < length idx)%nat ->
+    (nth_error idx p = Some v <-> (lo <= Z.of_nat p <= hi)%Z).
+Proof. exact action_ranges_spec. Qed.
+Print Assumptions C08_action_ranges_spec.
 
 (* ---- validity mask while no breakpoint is masked: False exactly outside [t_{k-1}, t_n] *)
 Theorem C08_mask_spec : forall bk k x,
